@@ -13,6 +13,11 @@
     wf <slot>                                                → ok | nid:clause+clause,…   (visited nodes violating WFNode)
     reset                                                    → ok        (drops nodes, handlers and stacks)
 
+  the handler table as a history of registrations on the instance (Model/ProcedureHistory.lean):
+    h.on <actionhex> <callback id> <beh>                     → ok        (Middleware.on; the table `exec` sees follows)
+    h.off <actionhex> <callback id>                          → ok | ValueError
+    h.clear                                                  → ok
+
   `Node.prop_keys` cache over a class table (Model/PropKeys.lean):
     pk.reset                                                 → ok        (drops table and cache)
     pk.cls <id> <namehex> <pathhex> <mro ids, class first>   → ok        (id = next index)
@@ -24,6 +29,7 @@
 import Tranp.Driver.Common
 import Tranp.Model.Procedure
 import Tranp.Model.PropKeys
+import Tranp.Model.ProcedureHistory
 
 namespace Tranp.Driver.Proc
 open Tranp Tranp.Procedure Tranp.Driver
@@ -35,6 +41,7 @@ structure DSt where
   nodes : Array PNode := #[]
   hs : Handlers String := ⟨fun _ => none, none⟩
   stacks : St String := []
+  em : Emitter String := []
   pk : PropKeys.Table := ⟨[], 0, []⟩
   pkCache : PropKeys.Cache := []
 
@@ -147,7 +154,21 @@ def step (st : DSt) : List String → DSt × String
         | vs => some (s!"{n.id}:" ++ "+".intercalate vs)
       (st, if bad.isEmpty then "ok" else ",".intercalate bad)
     | none => (st, "bad-op")
-  | ["reset"] => ({ st with nodes := #[], hs := ⟨fun _ => none, none⟩, stacks := [] }, "ok")
+  | ["reset"] => ({ st with nodes := #[], hs := ⟨fun _ => none, none⟩, stacks := [], em := [] }, "ok")
+  | ["h.on", action, id, beh] =>
+    match Str.unhex action, id.toNat?, mkHandler st.nodes beh with
+    | some a, some i, some h =>
+      let em := st.em.on a i h
+      ({ st with em := em, hs := em.table }, "ok")
+    | _, _, _ => (st, "bad-op")
+  | ["h.off", action, id] =>
+    match Str.unhex action, id.toNat? with
+    | some a, some i =>
+      match st.em.off a i with
+      | .ok em => ({ st with em := em, hs := em.table }, "ok")
+      | .error e => (st, e.toString)
+    | _, _ => (st, "bad-op")
+  | ["h.clear"] => ({ st with em := [], hs := Emitter.table ([] : Emitter String) }, "ok")
   | ["pk.reset"] => ({ st with pk := ⟨[], 0, []⟩, pkCache := [] }, "ok")
   | ["pk.cls", id, name, path, mro] =>
     match id.toNat?, Str.unhex name, Str.unhex path, (mro.splitOn ",").mapM (·.toNat?) with
